@@ -37,7 +37,7 @@ LEVEL = {  # evidence level per property (must agree with MANIFEST.json)
     'C12': 'exploration', 'C13': 'exploration', 'C14': 'exploration', 'C15': 'exploration', 'C16': 'exploration',
     'C17': 'fault_enumeration', 'C18': 'exploration',
 }
-CONTRACT_MODULES = ['streams', 'sync', 'writers', 'cwrite', 'helpers', 'cpack']
+CONTRACT_MODULES = ['streams', 'sync', 'writers', 'cwrite', 'helpers', 'cpack', 'cdirect']
 STANDING_ASSUMPTIONS = [
     'pyvc encodes a subset of Python: unbounded mathematical integers, bytes/str as z3 sequences, attribute dictionaries, '
     'no threads, no signals; anything outside the subset makes the unit undecided (never a pass)',
@@ -173,7 +173,29 @@ def known_findings():
     return out
 
 
+def write_baseline(tier):
+    """Developer command (never run by a registered check): record which obligations are discharged on the reference tree.
+    python3 check.py --write-baseline [--tier thorough]   -- merges into baseline_obligations.json"""
+    os.environ['VERIF_TIER'] = tier
+    allu, seen = [], set()
+    for p_ in sorted(LEVEL):
+        for u in units_for(p_):
+            if u['name'] not in seen and not u['trusted'] and not u['deferred'] and (tier == 'thorough' or u['tier'] != 'thorough'):
+                seen.add(u['name'])
+                allu.append(u)
+    res = run_units(allu, 900 if tier == 'quick' else 9000)
+    base = load_baseline()
+    for u, r in zip(allu, res):
+        if r['status'] in ('ok',):
+            base[u['name']] = sorted(o['name'] for o in r['obligations'] if o['status'] == 'discharged')
+        print(u['name'], r['status'], sum(o['status'] == 'discharged' for o in r['obligations']), '/', len(r['obligations']), r.get('reason', '')[:100])
+    json.dump(base, open(os.path.join(HERE, 'baseline_obligations.json'), 'w'), indent=0, sort_keys=True)
+    return 0
+
+
 def main():
+    if '--write-baseline' in sys.argv:
+        return write_baseline('thorough' if 'thorough' in sys.argv else 'quick')
     ap = argparse.ArgumentParser()
     ap.add_argument('prop')
     ap.add_argument('--tier', default=os.environ.get('VERIF_TIER', 'quick'))
